@@ -32,6 +32,22 @@ def genAscii : Nat → Rng → List Byte × Rng
     let (rest, r2) := genAscii k r1
     (UInt8.ofNat (97 + x) :: rest, r2)
 
+/-- exactly `n` bytes of well-formed UTF-8 mixing characters of 1 to 4 bytes (byte length ≠ character count) -/
+def genUtf8 : Nat → Nat → Rng → List Byte × Rng
+  | 0, _, r => ([], r)
+  | _, 0, r => ([], r)
+  | fuel+1, n, r =>
+    let (w0, r1) := r.below 4
+    let w := min (w0 + 1) n
+    let (x, r2) := r1.below 26
+    let ch : List Byte :=
+      if w = 1 then [UInt8.ofNat (97 + x)]
+      else if w = 2 then [0xC3, UInt8.ofNat (0xA0 + x)]                 -- à … ù
+      else if w = 3 then [0xE6, 0x97, UInt8.ofNat (0xA5 + x % 8)]       -- CJK
+      else [0xF0, 0x9F, 0x98, UInt8.ofNat (0x80 + x)]                    -- emoji
+    let (rest, r3) := genUtf8 fuel (n - w) r2
+    (ch ++ rest, r3)
+
 /-- a length for an opaque/string/array with an optional maximum: small, every residue mod 4, sometimes the maximum -/
 def genLen (lim : Option Nat) (small : Nat) (r : Rng) : Nat × Rng :=
   let (c, r1) := r.below 8
@@ -74,7 +90,7 @@ def genArr (a : Ast) : Nat → Nat → ArrayType → Rng → XVal × Rng
       let lim := max.bind (boundValue a)
       (match t with
        | .opaque => let (n, r1) := genLen lim 9 r; let (bs, r2) := genBytes n r1; (.varOpaque bs, r2)
-       | .string => let (n, r1) := genLen lim 9 r; let (bs, r2) := genAscii n r1; (.str bs, r2)
+       | .string => let (n, r1) := genLen lim 9 r; let (bs, r2) := genUtf8 (n + 1) n r1; (.str bs, r2)
        | t =>
          let (n, r1) := genLen lim (if depth ≥ 3 then 1 else 3) r
          let fired := r1.hit && !r.hit
@@ -93,7 +109,7 @@ def genBasic (a : Ast) : Nat → Nat → BasicType → Rng → XVal × Rng
     | .f32 => let (w, r1) := genWord r; (.f32 w, r1)
     | .f64 => let (w, r1) := genWord64 r; (.f64 w, r1)
     | .bool => let (w, r1) := r.below 2; (.bool (w == 1), r1)
-    | .string => let (n, r1) := genLen none 9 r; let (bs, r2) := genAscii n r1; (.str bs, r2)
+    | .string => let (n, r1) := genLen none 9 r; let (bs, r2) := genUtf8 (n + 1) n r1; (.str bs, r2)
     | .opaque => let (n, r1) := genLen none 9 r; let (bs, r2) := genBytes n r1; (.varOpaque bs, r2)
     | .ident n => genNamed a fuel depth n r
 def genNamed (a : Ast) : Nat → Nat → String → Rng → XVal × Rng
